@@ -25,30 +25,45 @@ def condOf : Nat → Option Cond
   | 12 => some .acmpeq | 13 => some .acmpne | 14 => some .null | 15 => some .nonnull
   | _ => none
 
+/-- values that do not fit the Rust type of the field cannot be put into a duke tree: `bad-op` on both sides -/
+def sInt (bits : Nat) (s : Sexp) : Option Int := do
+  let v ← toInt? s
+  if -(2 ^ (bits - 1) : Int) ≤ v ∧ v < (2 ^ (bits - 1) : Int) then some v else none
+
+def uNat (bits : Nat) (s : Sexp) : Option Nat := do
+  let v ← toNat? s
+  if v < 2 ^ bits then some v else none
+
+def kindOf (s : Sexp) : Option Nat := do
+  let v ← toNat? s
+  if v ≤ 4 then some v else none
+
 def parsePair (s : Sexp) : Option (Int × Nat) :=
   match s with
-  | list [k, t] => do pure ((← toInt? k), (← toNat? t))
+  | list [k, t] => do pure ((← sInt 32 k), (← toNat? t))
   | _ => none
 
 def parseInsn1 : Sexp → Option RInsn
-  | list [atom "s", op] => do pure (.plain (.simple (← toNat? op)))
-  | list [atom "bi", v] => do pure (.plain (.bipush (← toInt? v)))
-  | list [atom "si", v] => do pure (.plain (.sipush (← toInt? v)))
-  | list [atom "ldc-int", v] => do pure (.ldcInt (← toInt? v))
-  | list [atom "ldc-long", v] => do pure (.ldcLong (← toInt? v))
+  | list [atom "s", op] => do
+    let op ← toNat? op
+    if CodeDecode.isSimple op then pure (.plain (.simple op)) else none
+  | list [atom "bi", v] => do pure (.plain (.bipush (← sInt 8 v)))
+  | list [atom "si", v] => do pure (.plain (.sipush (← sInt 16 v)))
+  | list [atom "ldc-int", v] => do pure (.ldcInt (← sInt 32 v))
+  | list [atom "ldc-long", v] => do pure (.ldcLong (← sInt 64 v))
   | list [atom "ldc-str", s] => do pure (.ldcStr (← toJStr? s))
   | list [atom "ldc-cls", s] => do pure (.ldcCls (← toJStr? s))
-  | list [atom "ldc-float", v] => do pure (.ldcFloat (← toNat? v))
-  | list [atom "ldc-double", v] => do pure (.ldcDouble (← toNat? v))
-  | list [atom "ld", k, i] => do pure (.plain (.load (← toNat? k) (← toNat? i)))
-  | list [atom "st", k, i] => do pure (.plain (.store (← toNat? k) (← toNat? i)))
-  | list [atom "iinc", i, v] => do pure (.plain (.iinc (← toNat? i) (← toInt? v)))
-  | list [atom "ret", i] => do pure (.plain (.ret (← toNat? i)))
+  | list [atom "ldc-float", v] => do pure (.ldcFloat (← uNat 32 v))
+  | list [atom "ldc-double", v] => do pure (.ldcDouble (← uNat 64 v))
+  | list [atom "ld", k, i] => do pure (.plain (.load (← kindOf k) (← uNat 16 i)))
+  | list [atom "st", k, i] => do pure (.plain (.store (← kindOf k) (← uNat 16 i)))
+  | list [atom "iinc", i, v] => do pure (.plain (.iinc (← uNat 16 i) (← sInt 16 v)))
+  | list [atom "ret", i] => do pure (.plain (.ret (← uNat 16 i)))
   | list [atom "if", c, t] => do pure (.plain (.ifc (← condOf (← toNat? c)) (← toNat? t)))
   | list [atom "goto", t] => do pure (.plain (.goto (← toNat? t)))
   | list [atom "jsr", t] => do pure (.plain (.jsr (← toNat? t)))
   | list [atom "ts", d, lo, hi, tb] => do
-    pure (.plain (.tableswitch (← toNat? d) (← toInt? lo) (← toInt? hi) (← toListOf? toNat? tb)))
+    pure (.plain (.tableswitch (← toNat? d) (← sInt 32 lo) (← sInt 32 hi) (← toListOf? toNat? tb)))
   | list [atom "ls", d, ps] => do pure (.plain (.lookupswitch (← toNat? d) (← toListOf? parsePair ps)))
   | _ => none
 
@@ -57,6 +72,7 @@ def parseInsns (xs : List Sexp) : Option (Array RInsn) :=
     match x with
     | list [atom "rep", n, y] => do
       let n ← toNat? n
+      if acc.size + n > 200000 then none else
       let i ← parseInsn1 y
       pure (acc ++ Array.replicate n i)
     | y => do pure (acc.push (← parseInsn1 y))
@@ -80,12 +96,12 @@ def parseExc : Sexp → Option RExc
   | _ => none
 
 def parseLine : Sexp → Option (Nat × Nat)
-  | list [l, n] => do pure ((← toNat? l), (← toNat? n))
+  | list [l, n] => do pure ((← toNat? l), (← uNat 16 n))
   | _ => none
 
 def parseLv : Sexp → Option RLv
   | list [s, e, n, d, g, i] => do
-    pure ⟨← toNat? s, ← toNat? e, ← toJStr? n, ← toOption? toJStr? d, ← toOption? toJStr? g, ← toNat? i⟩
+    pure ⟨← toNat? s, ← toNat? e, ← toJStr? n, ← toOption? toJStr? d, ← toOption? toJStr? g, ← uNat 16 i⟩
   | _ => none
 
 structure Req where
@@ -152,10 +168,24 @@ inductive R (α : Type) where
   | err
   | panic
 
+/-- everything the model says about the class file written for a request -/
+structure Out where
+  file : Bytes
+  res : Result
+  /-- instructions with the pool indices the `ldc`s received -/
+  insns : List Insn
+  excRows : List (List Nat)
+  lnt : Option (List (List Nat))
+  lvt : Option (List (List Nat))
+  lvtt : Option (List (List Nat))
+  pool : PoolWrite.Pool
+
+abbrev Tab := Option (Bytes × List (List Nat))
+
 /-- The whole class file the real writer produces for the harness' skeleton class
-(`C extends java/lang/Object`, one method `m()V` with the requested code). -/
-def classFile (r : Req) : R Bytes :=
-  let opt {α} (o : Option α) (k : α → R Bytes) : R Bytes := match o with | none => .err | some a => k a
+(`C extends java/lang/Object`, version 52.0, one method `static public m()V` with the requested code, max_stack 7, max_locals 9). -/
+def classFile (r : Req) : R Out :=
+  let opt {α} (o : Option α) (k : α → R Out) : R Out := match o with | none => .err | some a => k a
   let p := PoolWrite.empty
   opt (PoolWrite.putClass p (jstr "C")) fun (thisI, p) =>
   opt (PoolWrite.putClass p (jstr "java/lang/Object")) fun (superI, p) =>
@@ -170,91 +200,187 @@ def classFile (r : Req) : R Bytes :=
     let lp := res.label
     if r.excs.length > 65535 then .err else
     opt (putCatches p r.excs) fun (excs, p) =>
-    opt (excBytes lp excs) fun excB =>
+    opt (excRows lp excs) fun excR =>
     -- LineNumberTable
-    let lnt : R (Bytes × Nat × PoolWrite.Pool) :=
+    let lnt : R (Tab × PoolWrite.Pool) :=
       match r.lines with
-      | none => .ok ([], 0, p)
+      | none => .ok (none, p)
       | some ls =>
         if ls.length > 65535 then .err else
-        match lineBytes lp ls with
+        match lineRows lp ls with
         | none => .err
-        | some b =>
-          match attr p "LineNumberTable" (u16b ls.length ++ b) with
+        | some rows =>
+          match attr p "LineNumberTable" (u16b ls.length ++ rowsBytes rows) with
           | none => .err
-          | some (a, p) => .ok (a, 1, p)
+          | some (a, p) => .ok (some (a, rows), p)
     match lnt with
     | .err => .err
     | .panic => .panic
-    | .ok (lntB, c1, p) =>
-    let lvt (p : PoolWrite.Pool) (useSig : Bool) (name : String) : R (Bytes × Nat × PoolWrite.Pool) :=
+    | .ok (lntT, p) =>
+    let lvt (p : PoolWrite.Pool) (useSig : Bool) (name : String) : R (Tab × PoolWrite.Pool) :=
       match r.lvs with
-      | none => .ok ([], 0, p)
+      | none => .ok (none, p)
       | some vs =>
         match putLvs p useSig vs with
         | none => .err
         | some (lvs, p') =>
-          if lvs.isEmpty then .ok ([], 0, p) else
+          if lvs.isEmpty then .ok (none, p) else
           if lvs.length > 65535 then .err else
-          match lvBytes lp lvs with
+          match lvRows lp lvs with
           | .error .err => .err
           | .error .panic => .panic
-          | .ok b =>
-            match attr p' name (u16b lvs.length ++ b) with
+          | .ok rows =>
+            match attr p' name (u16b lvs.length ++ rowsBytes rows) with
             | none => .err
-            | some (a, p) => .ok (a, 1, p)
+            | some (a, p) => .ok (some (a, rows), p)
     match lvt p false "LocalVariableTable" with
     | .err => .err
     | .panic => .panic
-    | .ok (lvtB, c2, p) =>
+    | .ok (lvtT, p) =>
     match lvt p true "LocalVariableTypeTable" with
     | .err => .err
     | .panic => .panic
-    | .ok (lvttB, c3, p) =>
-    let body := u16b 7 ++ u16b 9 ++ u32b res.code.length ++ res.code ++ u16b excs.length ++ excB ++
-      u16b (c1 + c2 + c3) ++ lntB ++ lvtB ++ lvttB
+    | .ok (lvttT, p) =>
+    let ab (t : Tab) : Bytes := match t with | none => [] | some (b, _) => b
+    let cnt (t : Tab) : Nat := match t with | none => 0 | some _ => 1
+    let body := u16b 7 ++ u16b 9 ++ u32b res.code.length ++ res.code ++ u16b excs.length ++ rowsBytes excR ++
+      u16b (cnt lntT + cnt lvtT + cnt lvttT) ++ ab lntT ++ ab lvtT ++ ab lvttT
     opt (attr p "Code" body) fun (codeAttr, p) =>
-    .ok ([0xca, 0xfe, 0xba, 0xbe, 0, 0, 0, 52] ++ PoolWrite.bytes p ++
-      u16b 0x21 ++ u16b thisI ++ u16b superI ++ u16b 0 ++ u16b 0 ++ u16b 1 ++
-      u16b 0x9 ++ u16b nameI ++ u16b descI ++ u16b 1 ++ codeAttr ++ u16b 0)
+    .ok {
+      file := [0xca, 0xfe, 0xba, 0xbe, 0, 0, 0, 52] ++ PoolWrite.bytes p ++
+        u16b 0x21 ++ u16b thisI ++ u16b superI ++ u16b 0 ++ u16b 0 ++ u16b 1 ++
+        u16b 0x9 ++ u16b nameI ++ u16b descI ++ u16b 1 ++ codeAttr ++ u16b 0
+      res := res, insns := is, excRows := excR
+      lnt := lntT.map (·.2), lvt := lvtT.map (·.2), lvtt := lvttT.map (·.2), pool := p }
+
+/-! ## answers -/
+
+def fnv (b : Bytes) : UInt64 :=
+  b.foldl (fun h x => (h ^^^ x.toUInt64) * 0x100000001b3) 0xcbf29ce484222325
+
+def hex16 (v : UInt64) : String :=
+  String.ofList ((List.range 16).map fun i => hexDigit ((v >>> (UInt64.ofNat (60 - 4 * i))).toNat % 16))
+
+/-- short byte strings in full, long ones as length + FNV-1a hash -/
+def blob (b : Bytes) : Sexp :=
+  if b.length ≤ 4096 then ofBytes b else list [tag "h", ofNat b.length, atom (hex16 (fnv b))]
+
+def rows (t : List (List Nat)) : Sexp := ofList (ofList ofNat) t
+
+def codeWriteAns (r : Req) : Ans :=
+  match classFile r with
+  | .err => .err "e"
+  | .panic => .err "panic"
+  | .ok o => .ok (list [blob o.file, list [ofNat 7, ofNat 9], blob o.res.code, rows o.excRows,
+      ofOption rows o.lnt, ofOption rows o.lvt, ofOption rows o.lvtt])
 
 /-! ## oracles on the model -/
 
-open CodeDecode CodeDenote in
-/-- `decode (write is)` denotes `is` (every jump, switch arm lands on its target instruction, trampolines allowed) -/
-def oracleWriteRead (is : List Insn) : Ans :=
-  match writeCode is with
-  | .ok res =>
-    match decode res.code with
+open CodeDecode CodeDenote
+
+/-- the constant the request asks for sits at the index the `ldc` uses -/
+def constAt (p : PoolWrite.Pool) : RInsn → Insn → Bool
+  | .plain _, _ => true
+  | .ldcInt v, .ldc i false => p.get i == some (.int v)
+  | .ldcFloat b, .ldc i false => p.get i == some (.float b)
+  | .ldcLong v, .ldc i true => p.get i == some (.long v)
+  | .ldcDouble b, .ldc i true => p.get i == some (.double b)
+  | .ldcStr s, .ldc i false => match p.get i with | some (.str u) => p.get u == some (.utf8 s) | _ => false
+  | .ldcCls s, .ldc i false => match p.get i with | some (.cls u) => p.get u == some (.utf8 s) | _ => false
+  | _, _ => false
+
+def allConstAt (p : PoolWrite.Pool) : List RInsn → List Insn → Bool
+  | [], [] => true
+  | x :: xs, i :: is => constAt p x i && allConstAt p xs is
+  | _, _ => false
+
+/-- `ldc` is used exactly for indices up to 255 (decoded length 2), `ldc_w` above -/
+def ldcForms : List (Nat × Nat × DInsn) → Bool
+  | [] => true
+  | (_, len, .ldc i) :: ds => ((len == 2) == decide (i ≤ 255)) && ldcForms ds
+  | _ :: ds => ldcForms ds
+
+/-- `decode (write is)` denotes `is`: every instruction sits at its recorded position, every jump and switch arm lands
+on its target instruction (trampolines allowed), constants are the requested ones. The tables are rows of label
+positions by construction. -/
+def oracleWriteRead (r : Req) : Ans :=
+  match classFile r with
+  | .ok o =>
+    match decode o.res.code with
     | none => .ok (list [tag "fail", tag "undecodable"])
     | some ds =>
-      if matchAll res.label (fun k => res.pos[k]?) 0 is ds then .ok (tag "pass") else .ok (list [tag "fail", tag "differs"])
+      if !matchAll o.res.label (fun k => o.res.pos[k]?) 0 o.insns ds then .ok (list [tag "fail", tag "differs"])
+      else if !allConstAt o.pool r.insns.toList o.insns then .ok (list [tag "fail", tag "constant"])
+      else if !ldcForms ds then .ok (list [tag "fail", tag "ldc-form"])
+      else .ok (tag "pass")
   | _ => .ok (tag "out-of-domain")
 
-open CodeDecode CodeDenote in
-/-- every branching instruction, decoded at its recorded position, lands on the recorded position of its target -/
-def oracleJumpsLand (is : List Insn) : Ans :=
-  match writeCode is with
-  | .ok res =>
-    let lp := res.label
-    -- `rest` = code from address `cur` on (addresses only grow, so the array is walked once)
-    let rec go (k : Nat) (cur : Nat) (rest : Bytes) : List Insn → Bool
-      | [] => true
-      | i :: more =>
-        match res.pos[k]? with
-        | none => false
-        | some pc =>
-          if pc < cur then false else
-          let rest := rest.drop (pc - cur)
-          match decodeOne pc rest with
-          | none => false
-          | some (d, len) =>
-            (denote1 lp i d ||
-             (match i, d, decodeOne (pc + len) (rest.drop len) with
-              | .ifc c t, .ifc op a, some (.goto g, len2) =>
-                op == negIf c.opcode && a == ((pc + len + len2 : Nat) : Int) && lands lp t g
-              | _, _, _ => false)) && go (k + 1) pc rest more
-    if go 0 0 res.code is then .ok (tag "pass") else .ok (list [tag "fail", tag "jump"])
+def insnTargets : Insn → List Nat
+  | .ifc _ t => [t] | .goto t => [t] | .jsr t => [t]
+  | .tableswitch d _ _ tb => d :: tb
+  | .lookupswitch d ps => d :: ps.map (·.2)
+  | _ => []
+
+def strictKeys : List (Int × Nat) → Bool
+  | [] => true
+  | [_] => true
+  | a :: b :: rest => decide (a.1 < b.1) && strictKeys (b :: rest)
+
+/-- the part of the domain of `oracle-wellformed` visible in the request: jumps and table starts designate
+instructions (not the end of the code), lookupswitch keys strictly increase -/
+def wellformedDomain (r : Req) : Bool :=
+  let n := r.insns.size
+  r.insns.all (fun x => match x with
+    | .plain i => (insnTargets i).all (· < n) && (match i with | .lookupswitch _ ps => strictKeys ps | _ => true)
+    | _ => true) &&
+  r.excs.all (fun e => e.start < n && e.handler < n) &&
+  (match r.lines with | none => true | some ls => ls.all (·.1 < n)) &&
+  (match r.lvs with | none => true | some vs => vs.all (·.start < n))
+
+def dTargets : DInsn → List Int
+  | .ifc _ a => [a] | .goto a => [a] | .jsr a => [a]
+  | .tableswitch a _ _ os => a :: os
+  | .lookupswitch a ps => a :: ps.map (·.2)
+  | _ => []
+
+def isUtf8 (p : PoolWrite.Pool) (i : Nat) : Bool := match p.get i with | some (.utf8 _) => true | _ => false
+def isClass (p : PoolWrite.Pool) (i : Nat) : Bool := match p.get i with | some (.cls n) => isUtf8 p n | _ => false
+
+def slotsSum (p : PoolWrite.Pool) : Nat := (p.entries.map (fun e => PoolWrite.slots e.1)).foldl (· + ·) 0
+
+/-- structural validity, evaluated on the model's components -/
+def oracleWellformed (r : Req) : Ans :=
+  if !wellformedDomain r then .ok (tag "out-of-domain") else
+  match classFile r with
+  | .ok o =>
+    let fail (t : String) : Ans := .ok (list [tag "fail", tag t])
+    let p := o.pool
+    let n := o.res.code.length
+    if n = 0 ∨ n > 65535 then fail "code-length" else
+    if p.count ≠ 1 + slotsSum p then fail "pool-count" else
+    if !(p.entries.all fun e => match e.1 with
+        | .cls u => isUtf8 p u | .str u => isUtf8 p u | _ => true) then fail "pool-reference" else
+    match decode o.res.code with
+    | none => fail "undecodable"
+    | some ds =>
+      let starts := ds.map (·.1)
+      let insnAt (a : Int) : Bool := starts.any (fun s => (s : Int) == a)
+      let at_ (a : Nat) : Bool := starts.contains a
+      if !(ds.all fun d => (dTargets d.2.2).all insnAt) then fail "branch-target" else
+      if !ldcForms ds then fail "ldc-form" else
+      if !(ds.all fun d => match d.2.2 with
+          | .ldc i => (match p.get i with | some (.int _) => true | some (.float _) => true | some (.str _) => true | some (.cls _) => true | _ => false)
+          | .ldc2 i => (match p.get i with | some (.long _) => true | some (.double _) => true | _ => false)
+          | .lookupswitch _ ps => strictKeys (ps.map fun kp => (kp.1, 0))
+          | _ => true) then fail "ldc-kind" else
+      if !(o.excRows.all fun row => match row with
+          | [a, b, c, d] => at_ a && (at_ b || b == n) && at_ c && (d == 0 || isClass p d)
+          | _ => false) then fail "exception" else
+      if !((o.lnt.getD []).all fun row => match row with | [a, _] => at_ a | _ => false) then fail "line-pc" else
+      if !(((o.lvt.getD []) ++ (o.lvtt.getD [])).all fun row => match row with
+          | [a, l, ni, di, _] => at_ a && (at_ (a + l) || a + l == n) && isUtf8 p ni && isUtf8 p di
+          | _ => false) then fail "local-variable" else
+      .ok (tag "pass")
   | _ => .ok (tag "out-of-domain")
 
 def containsSub (needle : Bytes) : Bytes → Bool
@@ -274,6 +400,8 @@ def poolPut (xs : Array RInsn) : Option (List Nat × Nat) := do
   let (_, p) ← PoolWrite.putUtf8 p (jstr "Code")
   pure (is.filterMap (fun i => match i with | .ldc idx _ => some idx | _ => none), p.count)
 
+def onlyLdc (xs : Array RInsn) : Bool := xs.all fun x => match x with | .plain _ => false | _ => true
+
 end C02
 
 open C02 in
@@ -281,30 +409,37 @@ def handleC02 (op : String) (args : List Sexp) : Option Ans :=
   match op, args with
   | "code-write", [i, e, l, v] => do
     let r ← parseReq i e l v
-    pure (match classFile r with
-      | .ok b => .ok (ofBytes b)
-      | .err => .err "e"
-      | .panic => .err "panic")
-  | "oracle-write-read", [i] => do
-    let xs ← toList? i
-    let is ← parseInsns xs
-    pure (oracleWriteRead (plainInsns is))
-  | "oracle-jumps-land", [i] => do
-    let xs ← toList? i
-    let is ← parseInsns xs
-    pure (oracleJumpsLand (plainInsns is))
+    pure (codeWriteAns r)
+  | "oracle-write-read", [i, e, l, v] => do
+    let r ← parseReq i e l v
+    pure (oracleWriteRead r)
+  | "oracle-wellformed", [i, e, l, v] => do
+    let r ← parseReq i e l v
+    pure (oracleWellformed r)
   | "pool-put", [es] => do
     let xs ← toList? es
     let is ← parseInsns xs
+    if !onlyLdc is then none else
     pure (match poolPut is with
       | none => .err "e"
-      | some (is, c) => .ok (list [ofList ofNat is, ofNat c]))
+      | some (is, c) =>
+        -- the code written for these constants must itself be writable (1..65535 bytes)
+        let len := (is.map fun i => if i ≤ 255 then 2 else 3).foldl (· + ·) 0
+        if len = 0 ∨ len > 65535 then .err "e" else .ok (list [ofList ofNat is, ofNat c]))
   | "cf-write-read", [b] => do
     let b ← toBytes? b
     pure (if hasFrames b then .ok (list [tag "differs", tag "frames"]) else .ok (tag "same"))
   | "oracle-cf-write-read", [atom mode, b] => do
     let b ← toBytes? b
-    pure (if mode == "partial" && hasFrames b then .ok (tag "out-of-domain") else .ok (tag "pass"))
+    -- full: read (write t) = t; partial: the same up to stack map frames (never written)
+    pure (if mode == "full" && hasFrames b then .ok (list [tag "fail", tag "frames"]) else .ok (tag "pass"))
+  | "model-attempts", [i] => do
+    -- model only (debugging aid for the generators): number of attempts of the retry loop
+    let xs ← toList? i
+    let is ← parseInsns xs
+    pure (match writeCode (plainInsns is) with
+      | .ok res => .ok (ofNat (res.wide.length + 1))
+      | _ => .err "e")
   | _, _ => none
 
 def main : IO Unit := Driver.run handleC02
